@@ -515,6 +515,7 @@ Proof.
     cbn [sdecode implied_type] in *. destruct W as [W _].
     destruct (blocks_of tn (ct_blocks ct)) as [|b rest]; [apply conforms_refl|].
     destruct (via_body _ _ _ _) as [v ds] eqn:V. cbn [fst snd] in *.
+    unfold prepare_body_val. rewrite type_of_with_marks.
     assert (V1 := via_body_fst (implied_schema s) (sdecode s c) (bbody b) (blabels b)).
     assert (V2 := via_body_snd (implied_schema s) (sdecode s c) (bbody b) (blabels b)).
     rewrite V in V1, V2. cbn [fst snd] in V1, V2. subst v ds.
@@ -527,7 +528,7 @@ Proof.
     destruct vs as [|v0 vr]; [apply conforms_refl|].
     assert (Cds : clean3 ds).
     { destruct (homogenise (v0 :: vr)) as [vs' u| | |]; cbn [snd] in C.
-      - unfold or_panic in C. destruct (list_val vs'); cbn [snd] in C;
+      - cbn zeta in C. destruct (list_val vs'); cbn [snd] in C;
           repeat (apply clean3_app in C as [C _]); exact C.
       - repeat (apply clean3_app in C as [C _]); exact C.
       - repeat (apply clean3_app in C as [C _]); exact C.
@@ -539,12 +540,11 @@ Proof.
       eapply IHs; eauto. }
     destruct (homogenise (v0 :: vr)) as [vs' u| | |] eqn:Hm; cbn [fst snd] in *.
     + destruct u.
-      { exfalso. unfold or_panic in C. destruct (list_val vs'); cbn [snd] in C.
+      { exfalso. cbn zeta in C. destruct (list_val vs'); cbn [snd] in C.
         - apply clean3_app in C as [_ [[C _] _]]. discriminate.
         - apply clean3_app in C as [C _]. apply clean3_app in C as [_ [[C _] _]]. discriminate. }
-      apply homogenise_plain in Hm as [-> _].
-      destruct (or_panic _ _) as [v ds'] eqn:O. cbn [fst snd] in *.
-      apply or_panic_some in O as [O _]; [|apply C].
+      apply homogenise_plain in Hm as [-> _]. cbn zeta in *.
+      destruct (list_val (v0 :: vr)) as [v|] eqn:O; cbn [fst snd] in *; [|apply conforms_refl].
       eapply list_val_conforms; eauto. discriminate.
     + exfalso. apply clean3_app in C as [_ [[C _] _]]. discriminate.
     + exfalso. apply clean3_app in C as [_ [[C _] _]]. discriminate.
@@ -558,7 +558,7 @@ Proof.
     destruct vs as [|v0 vr]; [apply conforms_refl|].
     assert (Cds : clean3 ds).
     { destruct (homogenise (v0 :: vr)) as [vs' u| | |]; cbn [snd] in C.
-      - unfold or_panic in C. destruct (set_val vs'); cbn [snd] in C;
+      - cbn zeta in C. destruct (set_val vs'); cbn [snd] in C;
           repeat (apply clean3_app in C as [C _]); exact C.
       - repeat (apply clean3_app in C as [C _]); exact C.
       - repeat (apply clean3_app in C as [C _]); exact C.
@@ -570,12 +570,11 @@ Proof.
       eapply IHs; eauto. }
     destruct (homogenise (v0 :: vr)) as [vs' u| | |] eqn:Hm; cbn [fst snd] in *.
     + destruct u.
-      { exfalso. unfold or_panic in C. destruct (set_val vs'); cbn [snd] in C.
+      { exfalso. cbn zeta in C. destruct (set_val vs'); cbn [snd] in C.
         - apply clean3_app in C as [_ [[C _] _]]. discriminate.
         - apply clean3_app in C as [C _]. apply clean3_app in C as [_ [[C _] _]]. discriminate. }
-      apply homogenise_plain in Hm as [-> _].
-      destruct (or_panic _ _) as [v ds'] eqn:O. cbn [fst snd] in *.
-      apply or_panic_some in O as [O _]; [|apply C].
+      apply homogenise_plain in Hm as [-> _]. cbn zeta in *.
+      destruct (set_val (v0 :: vr)) as [v|] eqn:O; cbn [fst snd] in *; [|apply conforms_refl].
       eapply set_val_conforms; eauto. discriminate.
     + exfalso. apply clean3_app in C as [_ [[C _] _]]. discriminate.
     + exfalso. apply clean3_app in C as [_ [[C _] _]]. discriminate.
@@ -608,9 +607,11 @@ Proof.
     cbn [sdecode implied_type] in *.
     destruct (blocks_of tn (ct_blocks ct)) as [|b rest]; [apply conforms_refl|].
     unfold just_attributes in *. cbn beta iota zeta in *.
-    destruct (battrs (bbody b)) as [|a0 ar] eqn:BA; [apply conforms_refl|].
-    destruct (or_panic _ _) as [v ds'] eqn:O. cbn [fst snd] in *.
-    apply or_panic_some in O as [O _]; [|apply C].
+    destruct (battrs (bbody b)) as [|a0 ar] eqn:BA.
+    { cbn [fst]. unfold prepare_body_val. rewrite type_of_with_marks. apply conforms_refl. }
+    match goal with |- context [map_val ?kvs] => destruct (map_val kvs) as [v|] eqn:O end;
+      cbn [fst snd] in *; [|apply conforms_refl].
+    unfold prepare_body_val. rewrite type_of_with_marks.
     eapply map_val_conforms; [| |exact O]; [cbn [map]; discriminate|].
     rewrite map_map. apply Forall_map. apply Forall_forall. intros a _. cbn [snd fst].
     destruct (aeval c (snd a)) as [v1 d1]. destruct (conv v1 t) eqn:Cv; cbn [fst snd type_of].
@@ -770,21 +771,10 @@ Proof. intros I Ii. cbn [label_idxs]. apply in_flat_map. eauto. Qed.
 Lemma label_idxs_tup ss x i : In x ss -> In i (label_idxs x) -> In i (label_idxs (STuple ss)).
 Proof. intros I Ii. cbn [label_idxs]. apply in_flat_map. eauto. Qed.
 
-Lemma static_all_obj fs :
-  (fix all (l : list (list Z * spec)) : Prop :=
-     match l with [] => True | p :: r => static_block_attrs (snd p) /\ all r end) fs ->
-  Forall (fun p => static_block_attrs (snd p)) fs.
-Proof. induction fs as [|p r IH]; intros H; constructor; [apply H|apply IH, H]. Qed.
-Lemma static_all_tup ss :
-  (fix all (l : list spec) : Prop :=
-     match l with [] => True | x :: r => static_block_attrs x /\ all r end) ss ->
-  Forall static_block_attrs ss.
-Proof. induction ss as [|p r IH]; intros H; constructor; [apply H|apply IH, H]. Qed.
-
 (* ---- Lemma B: no modelled panic ---------------------------------------------------------------------------- *)
 Definition no_panic_at (n : spec) : Prop :=
   forall top c ct lbls,
-    wf_at top n -> static_block_attrs n -> lbl_ok n lbls -> ct_ok (block_schemata n) (ct_blocks ct) ->
+    wf_at top n -> lbl_ok n lbls -> ct_ok (block_schemata n) (ct_blocks ct) ->
     clean2 (snd (sdecode n c ct lbls)) -> panicked (snd (sdecode n c ct lbls)) = false.
 
 Lemma only_errs_no_panic ds : only_errs ds -> panicked ds = false.
@@ -792,13 +782,13 @@ Proof. intros H. apply only_errs_flags in H. apply H. Qed.
 
 Lemma nested_ok n c :
   no_panic_at n ->
-  wf_at false n -> labels_consecutive n = true -> schema_consistent n -> static_block_attrs n ->
+  wf_at false n -> labels_consecutive n = true -> schema_consistent n ->
   forall body lbls', length lbls' = label_count n ->
   clean2 (snd (via_body (implied_schema n) (sdecode n c) body lbls')) ->
   panicked (snd (via_body (implied_schema n) (sdecode n c) body lbls')) = false /\
   type_conforms (type_of (fst (via_body (implied_schema n) (sdecode n c) body lbls'))) (implied_type n) = true.
 Proof.
-  intros IHn W LC SC ST body lbls' L C.
+  intros IHn W LC SC body lbls' L C.
   rewrite via_body_snd in *. rewrite via_body_fst.
   apply clean2_app in C as [_ C].
   assert (P : panicked (snd (sdecode n c (fst (full_content (implied_schema n) body)) lbls')) = false).
@@ -812,20 +802,20 @@ Qed.
 
 Lemma sdecode_no_panic : forall s, no_panic_at s.
 Proof.
-  induction s using spec_ind'; intros top c ct lbls W ST LB CT C.
+  induction s using spec_ind'; intros top c ct lbls W LB CT C.
   - (* ObjectSpec *)
-    cbn [sdecode snd] in *. destruct W as [_ W]. apply wf_all_obj in W. apply static_all_obj in ST.
+    cbn [sdecode snd] in *. destruct W as [_ W]. apply wf_all_obj in W.
     rewrite flat_map_concat_map, map_map, <- flat_map_concat_map in *.
     apply panicked_flat_map. intros p I. cbn [snd].
-    rewrite Forall_forall in H, W, ST. eapply H; eauto.
+    rewrite Forall_forall in H, W. eapply H; eauto.
     + intros i Ii. apply LB. eapply label_idxs_obj; eauto.
     + eapply ct_ok_incl; [|exact CT]. apply block_schemata_obj. exact I.
     + apply (clean2_flat_map _ _ _ C I).
   - (* TupleSpec *)
-    cbn [sdecode snd] in *. apply wf_all_tup in W. apply static_all_tup in ST.
+    cbn [sdecode snd] in *. apply wf_all_tup in W.
     rewrite flat_map_concat_map, map_map, <- flat_map_concat_map in *.
     apply panicked_flat_map. intros p I.
-    rewrite Forall_forall in H, W, ST. eapply H; eauto.
+    rewrite Forall_forall in H, W. eapply H; eauto.
     + intros i Ii. apply LB. eapply label_idxs_tup; eauto.
     + eapply ct_ok_incl; [|exact CT]. apply block_schemata_tup. exact I.
     + apply (clean2_flat_map _ _ _ C I).
@@ -836,18 +826,18 @@ Proof.
   - reflexivity.
   - cbn [sdecode]. destruct (value c e). cbn [snd]. apply panicked_eval.
   - (* BlockSpec *)
-    cbn [sdecode] in *. destruct W as [W [LC SC]]. cbn [static_block_attrs] in ST.
+    cbn [sdecode] in *. destruct W as [W [LC SC]].
     destruct (blocks_of tn (ct_blocks ct)) as [|b rest] eqn:BO; [destruct r; reflexivity|].
     destruct (via_body _ _ _ _) as [v ds] eqn:V. cbn [snd] in *.
     apply clean2_app in C as [_ C].
     assert (Ib : In b (blocks_of tn (ct_blocks ct))) by (rewrite BO; left; reflexivity).
     apply blocks_of_in in Ib as [Ib Qb].
-    destruct (nested_ok s c IHs W LC SC ST (bbody b) (blabels b)) as [P _].
+    destruct (nested_ok s c IHs W LC SC (bbody b) (blabels b)) as [P _].
     + eapply CT; eauto. cbn [block_schemata own_block_schemata]. left. reflexivity.
     + rewrite V. exact C.
     + rewrite V in P. apply panicked_app. split; [destruct rest; reflexivity|exact P].
   - (* BlockListSpec *)
-    cbn [sdecode] in *. destruct W as [W [LC SC]]. cbn [static_block_attrs] in ST.
+    cbn [sdecode] in *. destruct W as [W [LC SC]].
     destruct (seq_blocks _ _) as [[vs ds] unk] eqn:S.
     assert (Cds : clean2 ds).
     { destruct unk; [exact C|]. destruct vs as [|v0 vr]; cbn [snd] in C.
@@ -860,7 +850,7 @@ Proof.
         + repeat (apply clean2_app in C as [C _]); exact C. }
     destruct (seq_blocks_clean2 _ _ (fun _ => True) _ _ _ S Cds) as [P _].
     { intros b Ib Cb. cbn beta in *. apply blocks_of_in in Ib as [Ib Qb].
-      destruct (nested_ok s c IHs W LC SC ST (bbody b) (blabels b)) as [P _]; auto.
+      destruct (nested_ok s c IHs W LC SC (bbody b) (blabels b)) as [P _]; auto.
       eapply CT; eauto. cbn [block_schemata own_block_schemata]. left. reflexivity. }
     destruct unk; [exact P|]. cbn [snd] in *.
     assert (PC : panicked (ds ++ count_diags (Z.of_nat (length vs)) mn mx) = false).
@@ -880,18 +870,18 @@ Proof.
     + apply panicked_app. split; [exact PC|reflexivity].
     + apply panicked_app. split; [exact PC|reflexivity].
   - (* BlockTupleSpec *)
-    cbn [sdecode] in *. destruct W as [W [LC SC]]. cbn [static_block_attrs] in ST.
+    cbn [sdecode] in *. destruct W as [W [LC SC]].
     destruct (seq_blocks _ _) as [[vs ds] unk] eqn:S.
     assert (Cds : clean2 ds).
     { destruct unk; [exact C|]. cbn [snd] in C. apply clean2_app in C as [C _]. exact C. }
     destruct (seq_blocks_clean2 _ _ (fun _ => True) _ _ _ S Cds) as [P _].
     { intros b Ib Cb. cbn beta in *. apply blocks_of_in in Ib as [Ib Qb].
-      destruct (nested_ok s c IHs W LC SC ST (bbody b) (blabels b)) as [P _]; auto.
+      destruct (nested_ok s c IHs W LC SC (bbody b) (blabels b)) as [P _]; auto.
       eapply CT; eauto. cbn [block_schemata own_block_schemata]. left. reflexivity. }
     destruct unk; [exact P|]. cbn [snd].
     apply panicked_app. split; [exact P|]. apply count_diags_flags.
   - (* BlockSetSpec *)
-    cbn [sdecode] in *. destruct W as [W [LC SC]]. cbn [static_block_attrs] in ST.
+    cbn [sdecode] in *. destruct W as [W [LC SC]].
     destruct (seq_blocks _ _) as [[vs ds] unk] eqn:S.
     assert (Cds : clean2 ds).
     { destruct unk; [exact C|]. destruct vs as [|v0 vr]; cbn [snd] in C.
@@ -904,7 +894,7 @@ Proof.
         + repeat (apply clean2_app in C as [C _]); exact C. }
     destruct (seq_blocks_clean2 _ _ (fun _ => True) _ _ _ S Cds) as [P _].
     { intros b Ib Cb. cbn beta in *. apply blocks_of_in in Ib as [Ib Qb].
-      destruct (nested_ok s c IHs W LC SC ST (bbody b) (blabels b)) as [P _]; auto.
+      destruct (nested_ok s c IHs W LC SC (bbody b) (blabels b)) as [P _]; auto.
       eapply CT; eauto. cbn [block_schemata own_block_schemata]. left. reflexivity. }
     destruct unk; [exact P|]. cbn [snd] in *.
     assert (PC : panicked (ds ++ count_diags (Z.of_nat (length vs)) mn mx) = false).
@@ -924,7 +914,7 @@ Proof.
     + apply panicked_app. split; [exact PC|reflexivity].
     + apply panicked_app. split; [exact PC|reflexivity].
   - (* BlockMapSpec *)
-    cbn [sdecode] in *. destruct W as [NE [D [W [LC SC]]]]. cbn [static_block_attrs] in ST.
+    cbn [sdecode] in *. destruct W as [NE [D [W [LC SC]]]].
     rewrite has_dyn_iter_map, D in *.
     destruct (keyed_blocks _ _ _ _ _) as [[items ds] unk] eqn:K.
     assert (Cds : clean2 ds).
@@ -940,7 +930,7 @@ Proof.
       rewrite (CT b Ib tn (length ls + label_count s)%nat); [lia| |exact Qb].
       cbn [block_schemata own_block_schemata]. left. reflexivity. }
     { intros b Ib Cb. cbn beta in *. apply blocks_of_in in Ib as [Ib Qb].
-      destruct (nested_ok s c IHs W LC SC ST (bbody b) (skipn (length ls) (blabels b))) as [P T]; auto.
+      destruct (nested_ok s c IHs W LC SC (bbody b) (skipn (length ls) (blabels b))) as [P T]; auto.
       - rewrite skipn_length. rewrite (CT b Ib tn (length ls + label_count s)%nat); [lia| |exact Qb].
         cbn [block_schemata own_block_schemata]. left. reflexivity.
       - split; [exact P|]. unfold prepare_body_val. rewrite type_of_with_marks.
@@ -951,7 +941,7 @@ Proof.
       destruct (nest_map_same (length lr) (i0 :: ir) (implied_type s)) as [v' [E T]]; [discriminate|exact HV|].
       rewrite E. exact P.
   - (* BlockObjectSpec *)
-    cbn [sdecode] in *. destruct W as [NE [W [LC SC]]]. cbn [static_block_attrs] in ST.
+    cbn [sdecode] in *. destruct W as [NE [W [LC SC]]].
     destruct (keyed_blocks _ _ _ _ _) as [[items ds] unk] eqn:K.
     assert (Cds : clean2 ds).
     { destruct unk; [exact C|]. destruct (panicked ds); [exact C|].
@@ -965,7 +955,7 @@ Proof.
       rewrite (CT b Ib tn (length ls + label_count s)%nat); [lia| |exact Qb].
       cbn [block_schemata own_block_schemata]. left. reflexivity. }
     { intros b Ib Cb. cbn beta in *. apply blocks_of_in in Ib as [Ib Qb].
-      destruct (nested_ok s c IHs W LC SC ST (bbody b) (skipn (length ls) (blabels b))) as [P T]; auto.
+      destruct (nested_ok s c IHs W LC SC (bbody b) (skipn (length ls) (blabels b))) as [P T]; auto.
       rewrite skipn_length. rewrite (CT b Ib tn (length ls + label_count s)%nat); [lia| |exact Qb].
       cbn [block_schemata own_block_schemata]. left. reflexivity. }
     destruct unk; [exact P|]. rewrite P. destruct items as [|i0 ir]; cbn [snd]; [exact P|].
@@ -973,7 +963,7 @@ Proof.
     unfold or_panic. destruct (nest obj_val (S (length lr)) (i0 :: ir)) eqn:N; [exact P|].
     exfalso. eapply nest_obj_some; eauto.
   - (* BlockAttrsSpec *)
-    cbn [sdecode] in *. cbn [static_block_attrs] in ST.
+    cbn [sdecode] in *.
     destruct (blocks_of tn (ct_blocks ct)) as [|b rest]; [destruct r; reflexivity|].
     unfold just_attributes in *. cbn beta iota zeta in *.
     assert (PJ : forall (x : list ablock), panicked (match x with [] => [] | _ :: _ => [DDErr E_UnexpectedBlock] end) = false)
@@ -996,33 +986,33 @@ Proof.
     destruct (i <? 0) eqn:L0; [apply Z.ltb_lt in L0; lia|].
     destruct (Z.of_nat (length lbls) <=? i) eqn:L1; [apply Z.leb_le in L1; lia|]. reflexivity.
   - (* DefaultSpec *)
-    cbn [sdecode] in *. destruct W as [W1 [W2 _]]. destruct ST as [ST1 ST2].
+    cbn [sdecode] in *. destruct W as [W1 [W2 _]].
     assert (LB1 : lbl_ok s1 lbls) by (intros i I; apply LB; cbn [label_idxs]; apply in_or_app; auto).
     assert (LB2 : lbl_ok s2 lbls) by (intros i I; apply LB; cbn [label_idxs]; apply in_or_app; auto).
     assert (CT1 : ct_ok (block_schemata s1) (ct_blocks ct)).
     { eapply ct_ok_incl; [|exact CT]. intros x Ix. cbn [block_schemata]. apply in_or_app. right. apply in_or_app. auto. }
     assert (CT2 : ct_ok (block_schemata s2) (ct_blocks ct)).
     { eapply ct_ok_incl; [|exact CT]. intros x Ix. cbn [block_schemata]. apply in_or_app. right. apply in_or_app. auto. }
-    specialize (IHs1 top c ct lbls W1 ST1 LB1 CT1). specialize (IHs2 top c ct lbls W2 ST2 LB2 CT2).
+    specialize (IHs1 top c ct lbls W1 LB1 CT1). specialize (IHs2 top c ct lbls W2 LB2 CT2).
     destruct (sdecode s1 c ct lbls) as [v ds]. destruct (is_null v).
     + destruct (sdecode s2 c ct lbls) as [v' ds']. cbn [snd] in *.
       apply clean2_app in C as [C1 C2]. apply panicked_app. auto.
     + cbn [snd] in *. auto.
   - (* TransformExprSpec *)
-    cbn [sdecode] in *. destruct W as [W _]. cbn [static_block_attrs] in ST.
-    specialize (IHs top c ct lbls W ST LB CT).
+    cbn [sdecode] in *. destruct W as [W _].
+    specialize (IHs top c ct lbls W LB CT).
     destruct (sdecode s c ct lbls) as [v0 ds]. destruct (has_err ds); cbn [snd] in *; [auto|].
     destruct (value _ e) as [r rds]. cbn [snd] in *. apply clean2_app in C as [C _].
     apply panicked_app. split; [auto|apply panicked_eval].
   - (* TransformFuncSpec *)
-    cbn [sdecode] in *. destruct W as [W _]. cbn [static_block_attrs] in ST.
-    specialize (IHs top c ct lbls W ST LB CT).
+    cbn [sdecode] in *. destruct W as [W _].
+    specialize (IHs top c ct lbls W LB CT).
     destruct (sdecode s c ct lbls) as [v0 ds]. destruct (has_err ds); cbn [snd] in *; [auto|].
     destruct (tf_call f v0); cbn [snd] in *; [auto| |];
       apply clean2_app in C as [C _]; apply panicked_app; split; auto.
   - (* RefineValueSpec *)
-    cbn [sdecode] in *. destruct W as [W [RO RG]]. cbn [static_block_attrs] in ST.
-    pose proof (IHs top c ct lbls W ST LB CT) as P.
+    cbn [sdecode] in *. destruct W as [W [RO RG]].
+    pose proof (IHs top c ct lbls W LB CT) as P.
     pose proof (sdecode_conforms s top c ct lbls W) as T.
     destruct (sdecode s c ct lbls) as [v0 ds] eqn:S1. destruct (has_err ds) eqn:HE; cbn [snd] in *; [auto|].
     assert (Cds : clean2 ds).
@@ -1038,8 +1028,8 @@ Proof.
         unfold has_err in HE. rewrite existsb_app in HE. apply orb_false_iff in HE as [_ HE]. discriminate. }
     destruct (RO v0 Dm) as [v'' [E _]]. rewrite E. exact P.
   - (* ValidateSpec *)
-    cbn [sdecode] in *. cbn [static_block_attrs] in ST.
-    specialize (IHs top c ct lbls W ST LB CT).
+    cbn [sdecode] in *.
+    specialize (IHs top c ct lbls W LB CT).
     destruct (sdecode s c ct lbls) as [v0 ds]. destruct (has_err ds); cbn [snd] in *; [auto|].
     apply clean2_app in C as [C _]. apply panicked_app. split; [auto|]. destruct (f v0); reflexivity.
 Qed.
